@@ -31,6 +31,29 @@ impl Kanata {
             }
         }
         self.cur_keys.extend(self.layout.bm().keycodes());
+        // While an unmod / unshift key is held, the modifiers it removes are not pressed at the
+        // OS even though the layout still holds them. Mirror what handle_keystate_changes does,
+        // otherwise a repeat could be forwarded for a modifier that is up.
+        if !self.unmodded_keys.is_empty() {
+            for mod_key in self.unmodded_mods.iter() {
+                let kc = match mod_key {
+                    UnmodMods::LSft => KeyCode::LShift,
+                    UnmodMods::RSft => KeyCode::RShift,
+                    UnmodMods::LAlt => KeyCode::LAlt,
+                    UnmodMods::RAlt => KeyCode::RAlt,
+                    UnmodMods::LCtl => KeyCode::LCtrl,
+                    UnmodMods::RCtl => KeyCode::RCtrl,
+                    UnmodMods::LMet => KeyCode::LGui,
+                    UnmodMods::RMet => KeyCode::RGui,
+                    _ => continue,
+                };
+                self.cur_keys.retain(|k| *k != kc);
+            }
+        }
+        if !self.unshifted_keys.is_empty() {
+            self.cur_keys
+                .retain(|k| !matches!(k, KeyCode::LShift | KeyCode::RShift));
+        }
         self.overrides
             .override_keys(&mut self.cur_keys, &mut self.override_states);
 
